@@ -325,7 +325,6 @@ def run(ctx):
     ctx.check(len(d0) == 1 and d0[0] is not None and sp.ref_of(d0[0]) == q.param_by_index(sp, 0), R4, 'split_to_parts:cursor-starts-at-begin', 'the cursor does not start at the beginning of the input', sp.loc(ML))
     pushes = [i for i in sp.calls(sp.N(ML)['body']) if sp.bcallee(i) and q.short_of(sp.bcallee(i)) in ('push_back', 'emplace_back')]
     curw = [w for w in q.writes_to(sp, cur, sp.N(ML)['body'])]
-    paired = set()
 
     def is_cur_plus_1(x):
         n_ = sp.N(sp.strip(x))
@@ -337,69 +336,59 @@ def run(ctx):
             ctx.check(False, R4, 'split_to_parts:entry#%d:shape' % k, 'entry is not built as entry(begin,end,type)', sp.loc(i))
             continue
         a = sp.args(ctor[0])
-        tcv = sp.const_value(a[2])
-        nxt = [w for w in curw if q.between(sp, i, w, sp.N(ML)['cond']) or sp.point_of(w)[0] == sp.last_point_of(i)[0] and sp.point_of(w)[1] > sp.last_point_of(i)[1]]
-        okn = len(nxt) == 1 and q.always_after(sp, i, nxt)
-        if okn:
-            w = nxt[0]
-            m = sp.N(w)
-            if m['k'] == 'BinaryOperator' and m.get('op') == '=':
-                okn = q.canon(sp, m['ch'][1]) == q.canon(sp, a[1])
-            elif m['k'] == 'UnaryOperator' and m.get('op') == '++' or (m['k'] == 'CompoundAssignOperator' and m.get('op') == '+=' and sp.const_value(m['ch'][1]) == 1):
-                okn = is_cur_plus_1(a[1])
-            else:
-                okn = False
-            paired.add(w)
-        ctx.check(sp.ref_of(a[0]) == cur and okn, R4, 'split_to_parts:entry#%d:starts-at-cursor-and-cursor-moves-to-its-end' % k,
-                  'an entry does not start at the cursor, or the cursor is not moved to exactly the end of that entry (bytes lost or seen twice)', sp.loc(i))
         isplain = any(model.strip_targs(r).endswith('plain_text') for r in sp.subtree_refs(a[2]))
         if isplain:
             plain.append((k, i, a))
-    # `cursor = helper(cursor, ...)` where the helper emits exactly one entry [its cursor parameter, X) on every path and returns that X
-    def tile_helper(g, pidx):
-        if g is None or g.entry is None or pidx >= len(g.params):
-            return False
-        p0 = g.params[pidx]['ref']
-        if q.writes_to(g, p0):
-            return False
-        gp = [i for i in g.calls() if g.bcallee(i) and q.short_of(g.bcallee(i)) in ('push_back', 'emplace_back')]
-        rets = g.returns()
-        if not gp or len(gp) != len(rets):
-            return False
-        used = set()
-        for i in gp:
-            ctor = [j for j in g.walk(i) if g.N(j)['k'] in ('CXXConstructExpr', 'CXXTemporaryObjectExpr') and (g.type_of(g.N(j)) or '').endswith('entry') and len(g.args(j)) == 3]
-            if not ctor or g.ref_of(g.args(ctor[0])[0]) != p0:
-                return False
-            if any(model.strip_targs(r).endswith('plain_text') for r in g.subtree_refs(g.args(ctor[0])[2])):
-                return False
-            mine = [r for r in rets if r not in used and g.ret_value(r) is not None and q.canon(g, g.ret_value(r)) == q.canon(g, g.args(ctor[0])[1]) and q.before(g, i, r) and q.always_after(g, i, [r])]
-            if len(mine) != 1:
-                return False
-            # nothing moves the end expression between the push and the return
-            xv = [r for r in g.subtree_refs(g.args(ctor[0])[1]) if r.startswith(('v:', 'p:'))]
-            if any(q.between(g, i, w, mine[0]) for r in xv for w in q.writes_to(g, r)):
-                return False
-            used.add(mine[0])
-        return len(used) == len(rets)
-    nh = 0
-    for w in curw:
-        m = sp.N(w)
-        if w in paired or not (m['k'] == 'BinaryOperator' and m.get('op') == '='):
-            continue
-        c_ = sp.strip(m['ch'][1])
-        if sp.N(c_)['k'] != 'CallExpr':
-            continue
-        g_ = P.fns.get(sp.N(c_).get('callee') or '')
-        ai = [k_ for k_, a_ in enumerate(sp.args(c_)) if sp.ref_of(a_) == cur]
-        plain_arg = any(model.strip_targs(r).endswith('plain_text') for a_ in sp.args(c_) for r in sp.subtree_refs(a_))
-        okh = len(ai) == 1 and not plain_arg and tile_helper(g_, ai[0])
-        nh += 1
-        ctx.check(okh, R4, 'split_to_parts:helper-entry#%d:emits-one-entry-from-the-cursor-and-returns-its-end' % nh,
-                  'the cursor is taken from a helper that does not emit exactly the entry [cursor, returned position)', sp.loc(w))
-        if okh:
-            paired.add(w)
-    ctx.check(set(curw) == paired and bool(curw), R4, 'split_to_parts:cursor-moved-only-past-an-entry', 'the cursor is advanced without an entry covering the skipped bytes', sp.loc([w for w in curw if w not in paired][0]) if set(curw) - paired else sp.where)
+    # tiling, decided per path through one turn of the main loop (E4 path engine, helpers inlined one level, inner scans summarised
+    # by a fresh value of their cursor): exactly one entry is emitted, it starts where the cursor stood at the top of the turn and
+    # the cursor ends exactly at its end
+    from vlib import linbound as _lb
+    from vlib.lin import Lin as _L4
+    E4t = _lb.Engine(P, inline_depth=1)
+    headb = sp.point_of(sp.N(ML)['cond'])[0]
+    turns = []
+
+    def _log(st, ev):
+        st.env['__log'] = st.env.get('__log', ()) + (ev,)
+
+    def site(E, fn, st, node, chain):
+        if fn.bcallee(node) and q.short_of(fn.bcallee(node)) in ('push_back', 'emplace_back'):
+            ctor_ = [j for j in fn.walk(node) if fn.N(j)['k'] in ('CXXConstructExpr', 'CXXTemporaryObjectExpr') and (fn.type_of(fn.N(j)) or '').endswith('entry') and len(fn.args(j)) == 3]
+            if ctor_:
+                aa = fn.args(ctor_[0])
+                _log(st, ('push', E.value(fn, st, aa[0]), E.value(fn, st, aa[1]), fn.loc(node)))
+            else:
+                _log(st, ('push', None, None, fn.loc(node)))
+
+    def head(E, fn, b, st):
+        if fn is sp and b == headb:
+            _log(st, ('head', st.env.get(cur, _L4.atom(cur))))
+
+    def back(E, fn, b, st):
+        if fn is sp and b == headb:
+            lg = st.env.get('__log', ())
+            k_ = max([j for j, e_ in enumerate(lg) if e_[0] == 'head'] or [-1])
+            turns.append((lg[k_][1] if k_ >= 0 else None, [e_ for e_ in lg[k_ + 1:] if e_[0] == 'push'], st.env.get(cur, _L4.atom(cur))))
+    E4t.site_hooks.append(site)
+    E4t.loophead_hook, E4t.backedge_hook = head, back
+    try:
+        E4t.analyse(sp)
+    except AnalysisBroken as e_:
+        turns = None
+        ctx.check(False, R4, 'split_to_parts:turns-of-the-main-loop-explored', 'path exploration failed: %s' % e_, sp.where)
+    if turns is not None:
+        badt = None
+        for (p0, ps, p1) in turns:
+            if p0 is None or len(ps) != 1:
+                badt = badt or ('a turn of the loop emits %d entries (%s)' % (len(ps), [x[3] for x in ps]), ps[0][3] if ps else sp.loc(ML))
+                continue
+            (_, b_, e_, where_) = ps[0]
+            if b_ is None or (b_ - p0).key() != _L4.const(0).key():
+                badt = badt or ('the entry emitted at %s does not start where the cursor stood at the top of the turn (starts at %r, cursor %r): bytes lost or seen twice' % (where_, b_, p0), where_)
+            elif (e_ - p1).key() != _L4.const(0).key():
+                badt = badt or ('after the entry emitted at %s the cursor is %r, the entry ends at %r: bytes lost or seen twice' % (where_, p1, e_), where_)
+        ctx.check(bool(turns) and badt is None, R4, 'split_to_parts:every-turn-emits-one-entry-from-the-cursor-to-the-new-cursor', (badt[0] if badt else 'no complete turn of the main loop found'),
+                  (badt[1] if badt else sp.loc(ML)), detail={'turns': len(turns)})
     ctx.check(len(plain) >= 1, R4, 'split_to_parts:plain-text-entries-found', 'no plain_text entry is produced', sp.where)
 
     def ne_gate(f, K, over):
@@ -453,18 +442,32 @@ def run(ctx):
         if not ctor:
             continue
         ta = sp.args(ctor[0])[2]
-        trefs = set(sp.subtree_refs(ta))
-        for r in list(trefs):
-            if r.startswith('v:'):
-                for (_, v_) in sp.defs_of_var(r):
-                    if v_ is not None:
-                        trefs |= set(sp.subtree_refs(v_))
-        kinds = set(model.strip_targs(r).rsplit('::', 1)[-1] for r in trefs) & set(TERM)
-        # a local `type` variable initialised with the kind and possibly downgraded to invalid_data
-        for kind in kinds:
+        # where the kind of the entry is decided: the push itself (enumerator written in place, or computed by a helper that can only
+        # downgrade it to invalid_data), or the assignments of a local `kind` variable the push uses
+        def kinds_of(node):
+            refs = set(sp.subtree_refs(node))
+            for c_ in sp.calls(node):
+                g_ = P.fns.get(sp.N(c_).get('callee') or '')
+                if g_ is not None and g_.entry is not None and g_.file == sp.file:
+                    for r_ in g_.returns():
+                        if g_.ret_value(r_) is not None:
+                            refs |= set(g_.subtree_refs(g_.ret_value(r_)))
+            return set(model.strip_targs(r).rsplit('::', 1)[-1] for r in refs) & set(TERM)
+        sites_ = []
+        tv = sp.ref_of(ta)
+        if tv and tv.startswith('v:'):
+            ds_ = [(d_, v_) for (d_, v_) in sp.defs_of_var(tv) if v_ is not None]
+            first = [d_ for (d_, v_) in ds_ if sp.N(d_)['k'] == 'DeclStmt']
+            for (d_, v_) in ds_:
+                for kind in kinds_of(v_):
+                    # the declaration's initial kind is decided at the push (a later assignment can only replace it); an assignment decides where it stands
+                    sites_.append((kind, i if d_ in first else d_))
+        else:
+            sites_ = [(kind, i) for kind in kinds_of(ta)]
+        for (kind, site_) in sites_:
             nt += 1
             g_ = eq_gate(sp, lambda c, K=TERM[kind]: sp.const_value(c) == K)
-            ctx.check(bool(g_) and sp.only_through(i, g_), R4, 'split_to_parts:entry#%d:%s-ends-with-its-delimiter' % (k, kind), 'a %s entry is emitted without its closing delimiter having been seen' % kind, sp.loc(i))
+            ctx.check(bool(g_) and sp.only_through(site_, g_), R4, 'split_to_parts:entry#%d:%s-ends-with-its-delimiter' % (k, kind), 'a %s entry is emitted without its closing delimiter having been seen' % kind, sp.loc(site_))
     for w in [w for w in curw if sp.N(w)['k'] == 'BinaryOperator' and sp.N(sp.strip(sp.N(w)['ch'][1]))['k'] == 'CallExpr']:
         c_ = sp.strip(sp.N(w)['ch'][1])
         g_ = P.fns.get(sp.N(c_).get('callee') or '')
@@ -523,7 +526,11 @@ def run(ctx):
             return list(it.events)
         nb = 0
         fr = sorted(free)
-        for (bx, ev, it) in absint.explore(P, runs, [[(-128, 127)] * len(fr)]):
+        try:
+            explored = list(absint.explore(P, runs, [[(-128, 127)] * len(fr)]))
+        except absint.OutOfBounds as e_:
+            return 'template %r with %d free byte(s): %s' % (bytes(tmpl), len(fr), e_), nb
+        for (bx, ev, it) in explored:
             nb += 1
             # tiling
             pos = 0
